@@ -155,7 +155,7 @@ def check(run: Run):
     rng = random.Random(run.seed)
     run.cov["rule"] = (
         "files = rendered by the independent writer for 15 readable formats (xyz, extxyz, sdf, pdb, gro, crd, mol2, poscar, "
-        "chgcar, locpot, cube, fcidump, gaussian input, qcschema json, fchk) x sizes crossing field-width boundaries "
+        "chgcar, locpot, cube, fcidump, gaussian input, qcschema json, fchk, gaussian log, orca output, gamess punch, q-chem output) x sizes crossing field-width boundaries "
         "(>=100 atoms/bonds in SDF, serials >= 10000 in PDB CONECT, >= 1000 atoms) x magnitude classes (x <= -10 nm, "
         ">= 100 nm, wide negative numbers filling their columns) x layout variants (direct/cartesian/scaled/selective "
         "POSCAR, ragged cube lines, triclinic GRO box); distinct by (format, size, magnitude, variant)")
@@ -173,8 +173,9 @@ def check(run: Run):
             run.violation(key, what, {"event": e})
     run.notes["formats"] = sorted(WRITERS)
     run.notes["models_not_fitting_columns"] = len(skipped)
-    run.notes["not_covered"] = ("program logs (gaussianlog, orcalog, qchemlog, cp2klog, gamess punch) have no published layout to "
-                                "transcribe; molden/molekel are rendered independently in C05, wfn/wfx/mwfn only through C01/C02")
+    run.notes["not_covered"] = ("cp2klog has no rendered counterpart (its sections are rendered for gaussianlog, orcalog, gamess punch and "
+                                "qchemlog in the shape the programs print them, transcribed from sample outputs, not from a published "
+                                "specification); molden/molekel are rendered independently in C05, wfn/wfx/mwfn only through C01/C02")
     for f in ("sdf", "pdb", "gromacs"):
         run.sample(next(e for e in events if e["fmt"] == f))
     run.assumptions += ["tolerance: half a unit in the last digit written plus 2e-7 relative (single-precision readers)",
